@@ -59,6 +59,19 @@ def new_points(rng, ax, ints=False):
     return [gen.enc(p) for p in pts]
 
 
+class InterpEnv(core.CellEnv):
+    """`lin a b w` of the mirror over IEEE values: a + w * (b - a), and where that is inf - inf (an infinite node value)
+    the same weighted mean written (1 - w) * a + w * b - which is what numpy.interp returns (inf next to an infinite
+    node, NaN only between +inf and -inf)"""
+    def ev(self, c):
+        if c[0] == "lin":
+            a, b, w = self.ev(c[1]), self.ev(c[2]), float(Fraction(c[3], c[4]))
+            with np.errstate(invalid="ignore"):
+                v = a + w * (b - a)
+                return (1 - w) * a + w * b if np.isnan(v) else v
+        return super().ev(c)
+
+
 class C18(Prop):
     id = "C18"
     theorems = ["interpAt_node", "interpAt_left", "interpAt_right", "interpAt_between", "interpAxis_axes", "sortsNodes_exists", "SortsNodes.unique", "interpAxis_spec", "InterpolatesAlong.covers", "InterpolatesAlong.node", "InterpolatesAlong.left_fill",
@@ -68,7 +81,9 @@ class C18(Prop):
             "gaps and dyadic values so that every float operation is exact), every numeric axis by name, position, negative "
             "position or left out (first axis), new coordinate vectors (sorted or not, ndarray / list / Axis, float or int, "
             "empty) with points below, on, between and above the labels, left/right fills (default NaN, both, only left, "
-            "only right), issorted None / True (True only where the labels are stored increasing), single-label axes; "
+            "only right), issorted None / True (True only where the labels are stored increasing), single-label axes, NaN cells, "
+            "+inf / -inf cells (one, or two on neighbouring nodes of a fibre) with new coordinates on that node, on its "
+            "neighbours and half-way to them; "
             "interp_like (DimArray or Axes template, one or two shared axes), Dataset.interp_axis (axis by name / position / "
             "negative position, variables partly lacking the axis) and Dataset.interp_like (DimArray / Axes / Dataset "
             "template) against the per-variable 1-D definition. Non-trivial = axis of at least 2 labels; distinct = canonical JSON")
@@ -135,7 +150,43 @@ class C18(Prop):
                 c["ds_axis"] = rng.choice(["name", "name", "pos", "negpos"])
             if op == "dataset_like":
                 c["tmpl"] = rng.choice(["dimarray", "axes", "dataset"])
+            if arr["vkind"] == "f" and c["labels"] and c.get("newkind", "f") == "f" and rng.random() < 0.15:
+                self.add_inf(rng, c)
             yield c
+
+    def add_inf(self, rng, c):
+        """infinite data: a +inf / -inf cell on a node of one fibre (sometimes a second one on the neighbouring node: inf..inf
+        and inf..-inf segments), and new coordinates that hit that node exactly, its neighbours, and the points half-way.
+        numpy.interp (the 1-D definition) returns the node's value on the node and +-inf next to it."""
+        arr, d = c["array"], c["_d"]
+        shape = [len(a_["labels"]) for a_ in arr["axes"]]
+        xs = [Fraction(l[1], l[2]) for l in arr["axes"][d]["labels"]]
+        order = sorted(range(len(xs)), key=lambda i: xs[i])
+        zero = rng.random() < 0.5               # the first fibre: also the 1-D variable of the Dataset cases
+        pos = [0 if (zero and i != d) else rng.randrange(n) for i, n in enumerate(shape)]
+        r = order.index(pos[d])
+        cells = [(pos, rng.choice([1, -1]))]
+        if len(xs) > 1 and rng.random() < 0.4:
+            p2 = list(pos)
+            p2[d] = order[r + 1 if r + 1 < len(xs) else r - 1]
+            cells.append((p2, rng.choice([1, -1])))
+        def flat(p):
+            k = 0
+            for i, n in zip(p, shape):
+                k = k * n + i
+            return k
+        arr["inf_cells"] = [[flat(p), sg] for p, sg in cells]
+        extra = [xs[order[r]]]
+        for nb in (r - 1, r + 1):
+            if 0 <= nb < len(xs):
+                if rng.random() < 0.6:
+                    extra.append((xs[order[r]] + xs[order[nb]]) / 2)
+                if rng.random() < 0.4:
+                    extra.append(xs[order[nb]])
+        pts = [Fraction(l[1], l[2]) for l in c["labels"]]
+        for e in extra:
+            pts.insert(rng.randrange(len(pts) + 1), e)
+        c["labels"] = [gen.enc(p_) for p_ in pts]
 
     def build(self, c):
         a = core.build_array(c["array"], 0)
@@ -145,6 +196,8 @@ class C18(Prop):
             v = (np.arange(a.size) * 3 + 1).reshape(a.shape).astype(np.int64)
         for i in c["array"].get("nan_cells", []):
             v.reshape(-1)[i % v.size] = np.nan       # missing data: the node values next to it must still be reproduced
+        for i, sg in c["array"].get("inf_cells", []):
+            v.reshape(-1)[i % v.size] = sg * np.inf
         b = DimArray(v, axes=[ax.copy() for ax in a.axes])
         b.attrs.update(a.attrs)
         return b
@@ -291,7 +344,7 @@ class C18(Prop):
                 prop_bad.append("operand_modified")
             return None if not prop_bad else {"kind": "P", "differs": sorted(set(prop_bad)), "msg": io.get("msg")}
         if "ok" in lean:
-            env = core.CellEnv([a.values], fill=left, fill2=right)
+            env = InterpEnv([a.values], fill=left, fill2=right)
             lo = core.lean_obs_to_canon(lean["ok"], env)
             lo["values"] = [fl(env.ev(x)) for x in lean["ok"]["cells"]]
             lo["scalar"] = False
@@ -349,7 +402,7 @@ class C18(Prop):
         return {"outcome": "err:" + io["err"] if "err" in io else "ok", "op": c["op"], "rank": len(c["array"]["axes"]),
                 "order": ax.get("_order"), "nlab": len(ax["labels"]), "fills": fk, "vkind": c["array"]["vkind"],
                 "issorted": bool(c.get("issorted")), "valform": c.get("valform", "array"), "newkind": c.get("newkind", "f"),
-                "nnew": min(len(c["labels"]), 3), "tmpl": c.get("tmpl"), "ds_axis": c.get("ds_axis"),
+                "nnew": min(len(c["labels"]), 3), "tmpl": c.get("tmpl"), "ds_axis": c.get("ds_axis"), "inf": len(c["array"].get("inf_cells", [])),
                 "axis_form": k[0] if k[0] != "pos" else ("pos" if k[1] >= 0 else "negpos")}
 
     def size(self, c):
